@@ -160,9 +160,18 @@ compact_array_tuple_sketch<Array, Allocator> compact_array_tuple_sketch<Array, A
   if (has_entries) {
     const auto num_entries = read<uint32_t>(is);
     read<uint32_t>(is); // unused
+    if (!is.good()) throw std::runtime_error("error reading from std::istream");
+    // the count is not trusted until the stream has delivered that many keys
+    const uint32_t block_size = 1 << 16;
+    std::vector<uint64_t, AllocU64> keys(allocator);
+    keys.reserve(std::min(num_entries, block_size));
+    while (keys.size() < num_entries) {
+      const size_t offset = keys.size();
+      keys.resize(offset + std::min<size_t>(num_entries - offset, block_size));
+      read(is, keys.data() + offset, (keys.size() - offset) * sizeof(uint64_t));
+      if (!is.good()) throw std::runtime_error("error reading from std::istream");
+    }
     entries.reserve(num_entries);
-    std::vector<uint64_t, AllocU64> keys(num_entries, 0, allocator);
-    read(is, keys.data(), num_entries * sizeof(uint64_t));
     for (size_t i = 0; i < num_entries; ++i) {
       Array summary(num_values, 0, allocator);
       read(is, summary.data(), num_values * sizeof(typename Array::value_type));
